@@ -16,6 +16,8 @@ normalisations (case-folding, int()/bool() coercions) do not alarm while
 'accepted and kept invalid' does.  For (ii)-(iv) any normal return is a
 violation; any exception counts as rejection.
 """
+import os
+
 from rv import doccorrupt as DC
 from rv import formats
 from rv.ctx import jsonable
@@ -37,7 +39,7 @@ REQUIRED_REACH = ["common.Header.deserialize", "treeinfo.Header.deserialize", "c
 REQUIRED_MONITORS = ["invalid-value-rejected-or-normalised", "foreign-type-rejected", "mangled-version-rejected",
                      "missing-required-rejected", "uncorrupted-loads"]
 CLASS_FLOORS = {"kind-value": 100, "kind-delete": 50, "kind-header-type": 50, "kind-version": 30, "type-gate-1.0-recorded": 5,
-                "type-gate-1.1": 10, "type-gate-1.2": 10, "type-gate-2.0": 10, "type-deleted": 5, "value-normalised-on-read": 5}
+                "entry-loads": 100, "entry-load-path": 100, "entry-load-fileobj": 100, "type-gate-1.1": 10, "type-gate-1.2": 10, "type-gate-2.0": 10, "type-deleted": 5, "value-normalised-on-read": 5}
 for _f in formats.FORMATS:
     CLASS_FLOORS["fmt-" + _f] = 20
 
@@ -89,10 +91,29 @@ def corruptions_for(fmt, doc, rng, k):
     return out
 
 
-def load(pms, fmt, textin):
+ENTRY_POINTS = ["loads", "load-path", "load-fileobj"]
+
+
+def load(pms, fmt, textin, entry="loads", scratch=None):
+    """The document reaches the reader through one of its three entry points."""
     obj = formats.new_object(pms, fmt)
-    obj.loads(textin)
+    if entry == "loads" or scratch is None:
+        obj.loads(textin)
+        return obj
+    if entry == "load-fileobj":
+        import io
+        obj.load(io.StringIO(textin))
+        return obj
+    path = os.path.join(scratch, "c07-doc")
+    with open(path, "w", encoding="utf-8", errors="surrogatepass", newline="") as f:
+        f.write(textin)
+    obj.load(path)
     return obj
+
+
+def is_coercion_slot(cor):
+    """Slots whose injected value the readers are documented to coerce into the domain (int()/bool()/case folding)."""
+    return str(cor.get("slot", "")).endswith(("-numeric-string", "-truthy", "-casefold"))
 
 
 def check_one(ctx, pms, fmt, D, order_seed, doc, cor):
@@ -104,8 +125,11 @@ def check_one(ctx, pms, fmt, D, order_seed, doc, cor):
     textin = DC.render(fmt, bad_doc, _random.Random(order_seed ^ len(str(cor))))
     kind = cor["kind"]
     ctx.count("kind-" + kind)
+    entry = ENTRY_POINTS[(order_seed + len(textin)) % 3]
+    case["entry"] = entry
+    ctx.count("entry-" + entry)
     try:
-        obj = load(pms, fmt, textin)
+        obj = load(pms, fmt, textin, entry, ctx.scratch)
         outcome = "loaded"
     except Exception as e:
         obj = None
@@ -136,6 +160,9 @@ def check_one(ctx, pms, fmt, D, order_seed, doc, cor):
                 if same:
                     verdict_bad = True
                     detail = "loaded and written back unchanged"
+                elif not is_coercion_slot(cor):
+                    verdict_bad = True
+                    detail = "loaded through %s: the reader accepted the document and silently changed it (wrote back %r)" % (entry, kept)
                 else:
                     ctx.count("value-normalised-on-read")
                     ctx.note_add("normalised:%s:%s" % (fmt, cor["slot"]))
